@@ -2072,7 +2072,7 @@ impl PrinterLogMessage {
     proof { reveal(vs); reveal(ls); }
 //@end
 
-//@cut fn path=src/printer/printers.rs impl=PrinterLogMessage name=print_evtx_prepend ret=r
+//@cut fn path=src/printer/printers.rs impl=PrinterLogMessage name=print_evtx_prepend ret=r rlimit=150
 //@replace "data[a..].find_byte(NLu8)" "verif_find_byte(&data[a..], NLu8)"
 //@desugar_while_let 1 exit="assert(data@.subrange(a as int, data@.len() as int) =~= data@.skip(a as int)); lemma_epayload_tail_none(pre, data@, a as int);"
 //@spec
@@ -2125,7 +2125,7 @@ impl PrinterLogMessage {
         // C13: per line: file-name field, datetime field, line -- in that order, nothing else
         assert(stdout_lock.view() == total && printed == stdout_lock.view().len() && self.buffer@.len() == 0);
 //@end
-//@cut fn path=src/printer/printers.rs impl=PrinterLogMessage name=print_journalentry_prepend ret=r
+//@cut fn path=src/printer/printers.rs impl=PrinterLogMessage name=print_journalentry_prepend ret=r rlimit=150
 //@replace "data[a..].find_byte(NLu8)" "verif_find_byte(&data[a..], NLu8)"
 //@desugar_while_let 1 exit="assert(data@.subrange(a as int, data@.len() as int) =~= data@.skip(a as int)); lemma_epayload_tail_none(pre, data@, a as int);"
 //@spec
